@@ -354,6 +354,8 @@ func doDump(c *core.Ctx, what string) {
 		for sig, hs := range groups {
 			fmt.Printf("%d handlers: %v\n    %s\n", len(hs), hs, strings.ReplaceAll(sig, " ; ", "\n    "))
 		}
+	case what == "paramnames":
+		os.Stdout.Write(c.DumpParamNames())
 	case what == "lockorder":
 		rules.DumpLockOrder(c)
 	case what == "panics":
